@@ -34,6 +34,9 @@ def run(chk, repo, tier):
 
     # ---------------------------------------------------------------- C07-a
     coherent(chk, repo, 'C07-a')
+    from .common import Remap
+    from .c06 import disjoint_rules
+    disjoint_rules(Remap(chk, {'C06-f': 'C07-a'}), repo)
     f, si = insert_stores(repo, TRUE)
     _, sc = insert_stores(repo, FALSE)
     n, ok, det = 0, True, ''
